@@ -230,6 +230,7 @@ func segIDs(l []*segmentData) []int {
 type schedReplay struct {
 	Scen    json.RawMessage `json:"scen"`
 	Choices []int           `json:"choices"`
+	Policy  int             `json:"policy,omitempty"`
 }
 
 func c20Run(c *vh.Ctx) {
@@ -275,7 +276,13 @@ func c20Run(c *vh.Ctx) {
 
 // runSched explores one scheduling harness and reports into c.
 func runSched(c *vh.Ctx, scen any, h vsched.Harness, bound int, delay bool, shard, shards int) {
-	ex := &vsched.Explorer{T: c.T, H: h, Bound: bound, Delay: delay, Deadline: c.Deadline, Shard: shard, Shards: shards,
+	runSchedPolicy(c, scen, h, bound, delay, 0, shard, shards)
+}
+
+// runSchedPolicy is runSched with a choice of canonical schedule (rotate = round robin).
+// policy: 0 keep running then ascending ids, 1 round robin, 2 keep running then descending ids
+func runSchedPolicy(c *vh.Ctx, scen any, h vsched.Harness, bound int, delay bool, policy int, shard, shards int) {
+	ex := &vsched.Explorer{T: c.T, H: h, Bound: bound, Delay: delay, Rotate: policy == 1, Reverse: policy == 2, Deadline: c.Deadline, Shard: shard, Shards: shards,
 		OnExec: func(outcome string, tr *vsched.Trace) {
 			c.Outcome(c.Scenario[:strings.IndexAny(c.Scenario+" ", " ")] + "|" + outcome)
 			if f := os.Getenv("VERIF_TRACE"); f != "" && f != "1" {
@@ -302,7 +309,7 @@ func runSched(c *vh.Ctx, scen any, h vsched.Harness, bound int, delay bool, shar
 	sb, _ := json.Marshal(scen)
 	for _, f := range st.Found {
 		c.Violation(f.Viol.Sig, fmt.Sprintf("%s\nschedule (%d deviations, %d decisions): %v", f.Viol.Msg, f.Devs, len(f.Choices), f.Choices),
-			schedReplay{Scen: sb, Choices: f.Choices})
+			schedReplay{Scen: sb, Choices: f.Choices, Policy: policy})
 	}
 	if st.Capped != "" && len(st.Found) == 0 {
 		c.Cap(c.Scenario + ": " + st.Capped)
